@@ -163,11 +163,10 @@ def build(repo=None):
                 msg = z3.FreshConst(STR, "cs_msg")
                 rej.pc.append(z3.Length(msg) > 0)
                 outs.append((rej, Z("str", msg)))
-                for c in ANY_EXC:
-                    x = s.fork(z3.And(v != 0, v != 1), f"cs:raises {c}")
-                    x.put(sm, DictObj(STR, INT, tag="sigma_partial"))
-                    x.put(vm, DictObj(STR, U, tag="nu_partial"))
-                    outs.append((x, Raised(Exc(c, origin="_check_shape"))))
+                x = s.fork(z3.And(v != 0, v != 1), "cs:raises")
+                x.put(sm, DictObj(STR, INT, tag="sigma_partial"))
+                x.put(vm, DictObj(STR, U, tag="nu_partial"))
+                outs.append((x, Raised(Exc(frozenset(ANY_EXC), origin="_check_shape"))))
                 return outs
 
             eng.globals["get_shape_memo"] = Fn("get_shape_memo", model=m_get_shape_memo)
@@ -294,9 +293,12 @@ def build(repo=None):
                             eng.oblige(s1, "C01:accept-implies-view-is-spec-post-state", z3.Implies(empty, post))
                 elif o.kind == "raise":
                     e = o.val
-                    eng.oblige(s1, f"C04:raise-implies-view-unchanged[{'Exception' if e.cls != 'NonExceptionBase' else 'non-Exception BaseException'}]", unchanged, exc=z3.StringVal(e.cls), origin=z3.StringVal(str(e.origin)))
+                    K = s1.ghost.get("exc_classes", {}).get(e.id, e.classes())
+                    kind = "non-Exception BaseException" if K == {"NonExceptionBase"} else ("Exception" if "NonExceptionBase" not in K else "any class")
+                    rep = "NonExceptionBase" if "NonExceptionBase" in K else sorted(K)[0]
+                    eng.oblige(s1, f"C04:raise-implies-view-unchanged[{kind}]", unchanged, exc=z3.StringVal(rep), origin=z3.StringVal(str(e.origin)))
                     if e.origin not in ("_check_shape",) and not str(e.origin).startswith("obj"):
-                        eng.oblige(s1, f"raises:only-user-code-raises[{e.cls} from {e.origin}]", z3.BoolVal(False))
+                        eng.oblige(s1, f"raises:only-user-code-raises[{'/'.join(sorted(K))} from {e.origin}]", z3.BoolVal(False))
                 else:
                     eng.oblige(s1, "ensures:function-returns-a-value", z3.BoolVal(False))
             obligations.extend(st.obl)
@@ -314,7 +316,7 @@ def build(repo=None):
     res = z3.String("ics_result")
 
     def m_ics(e, s, args, kwargs, node):
-        return [(s, Z("str", res))] + [(s, Raised(Exc(c, origin="__instancecheck_str__"))) for c in ANY_EXC]
+        return [(s, Z("str", res)), (s, Raised(Exc(frozenset(ANY_EXC), origin="__instancecheck_str__")))]
 
     cls2 = st2.alloc(Obj("annotation-class", {"__instancecheck_str__": Fn("__instancecheck_str__", model=m_ics)}, tag="cls"))
     p2 = [a.arg for a in fn2.args.args]
